@@ -556,6 +556,8 @@ def generate():
     import py2lean_kern
     report["kernels"] = py2lean_kern.generate_hkern(fns, gen_dir, write_if_changed)
     report["files"].append("Gen/HKern.lean")
+    report["kernels"].update(py2lean_kern.generate_fillkern(fns, gen_dir, write_if_changed))
+    report["files"].append("Gen/FillKern.lean")
     # ---- Dispatch.lean (for the line-protocol driver): every generated def by name ------------
     import re as _re
     cases = []
